@@ -24,15 +24,15 @@ LIB = 'src/lib.rs'
 # ---------------------------------------------------------------- C01
 M('c01_suspect_needs_higher_inc', ['C01'], ['C01-R1'], 'Suspect no longer overrides Alive at equal incarnation',
   (MEMBER, 'State::Suspect => other_incarnation >= self.incarnation,', 'State::Suspect => other_incarnation > self.incarnation,'))
-M('c01_down_changeable', ['C01', 'C11'], ['C01-R1'], 'a Down record can be overridden by a higher incarnation',
+M('c01_down_changeable', ['C01', 'C11'], ['C01-R1', 'C11-R5'], 'a Down record can be overridden by a higher incarnation',
   (MEMBER, '            State::Down => false,\n        }\n    }\n\n    pub(crate) fn into_identity',
    '            State::Down => other_incarnation > self.incarnation,\n        }\n    }\n\n    pub(crate) fn into_identity'))
 M('c01_suspect_alive_same_inc', ['C01'], ['C01-R1'], 'Alive refutes Suspect at the same incarnation',
   (MEMBER, 'State::Alive | State::Suspect => other_incarnation > self.incarnation,',
    'State::Alive => other_incarnation >= self.incarnation,\n                State::Suspect => other_incarnation > self.incarnation,'))
-M('c01_conflict_polarity', ['C01', 'C09'], ['C01-R3'], 'conflict resolution asks the update instead of the stored identity',
+M('c01_conflict_polarity', ['C01', 'C09'], ['C01-R3', 'C09-R2'], 'conflict resolution asks the update instead of the stored identity',
   (MEMBER, 'if id_conflict && known_member.id.win_addr_conflict(&update.id) {', 'if id_conflict && !update.id.win_addr_conflict(&known_member.id) {'))
-M('c01_lookup_by_identity', ['C01', 'C09'], ['C01-R3'], 'records are looked up by identity instead of address',
+M('c01_lookup_by_identity', ['C01', 'C09'], ['C01-R3', 'C09-R2'], 'records are looked up by identity instead of address',
   (MEMBER, '.find(|member| member.id.addr() == update.id().addr())', '.find(|member| &member.id == update.id())'))
 M('c01_replace_keeps_incarnation', ['C01'], ['C01-R3'], 'conflict replacement keeps the old incarnation',
   (MEMBER, '                known_member.incarnation = update.incarnation;\n', ''))
@@ -184,7 +184,7 @@ M('c08_undead_without_defunct', ['C08', 'C13'], ['C08-R5'], 'become_undead only 
   (LIB, '        runtime.notify(Notification::Defunct);', '        if self.probe.validate() {\n            runtime.notify(Notification::Defunct);\n        }'))
 M('c08_connected_without_members', ['C08'], ['C08-R5', 'C06-R2'], 'Active reported from the idle state without any active member',
   (LIB, '                if self.members.num_active() > 0 {\n                    self.become_connected(runtime);', '                if self.members.num_active() > 0 || self.updates_backlog() > 3 {\n                    self.become_connected(runtime);'))
-M('c08_no_adjust_after_timeout', ['C08', 'C11'], ['C08-R6'], 'suspicion timeout no longer re-evaluates the connection state',
+M('c08_no_adjust_after_timeout', ['C08'], ['C08-R6'], 'suspicion timeout no longer re-evaluates the connection state',
   (LIB, '                        // Member went down we might need to adjust our internal state\n                        self.adjust_connection_state(&mut runtime);\n', ''))
 M('c08_rejoin_before_change', ['C08', 'C10'], ['C08-R5'], 'Rejoin notified even if change_identity failed',
   (LIB, '                self.change_identity(new_identity.clone(), &mut runtime)?;\n\n                runtime.notify(Notification::Rejoin(&new_identity));',
@@ -262,3 +262,24 @@ M('c10_previous_identity_not_declared_down', ['C10'], ['C10-R4'], 'change_identi
   (LIB, '            if !previous_is_down {\n                let addr', '            if previous_is_down {\n                let addr'))
 M('c10_identity_without_reset', ['C10', 'C13'], ['C10-R2'], 'identity changed without resetting incarnation/epoch when idle',
   (LIB, '            let previous_id = mem::replace(&mut self.identity, new_id);\n\n            self.reset();', '            let previous_id = mem::replace(&mut self.identity, new_id);\n\n            if self.connection_state != ConnectionState::Disconnected {\n                self.reset();\n            }'))
+
+# ---------------------------------------------------------------- C11
+M('c11_epoch_check_weakened', ['C11', 'C13'], ['C11-R1', 'C13-R2'], 'suspicion timeouts of older epochs still take effect',
+  (LIB, '                if self.timer_token == token {\n                    let as_down', '                if self.timer_token >= token {\n                    let as_down'))
+M('c11_condition_ge', ['C11'], ['C11-R1'], 'timeout applies even if the member refuted with a higher incarnation... inverted: applies when record incarnation >= snapshot',
+  (LIB, '                            member.incarnation() == incarnation\n', '                            member.incarnation() >= incarnation\n'))
+M('c11_condition_dropped', ['C11'], ['C11-R1'], 'timeout applies unconditionally',
+  (LIB, '                        .apply_existing_if(as_down.clone(), |member| {\n                            member.incarnation() == incarnation\n                        })',
+   '                        .apply_existing_if(as_down.clone(), |_member| true)'))
+M('c11_forget_timer_only_when_broadcasting', ['C11'], ['C11-R4'], 'no forget-timer for members learned Down with broadcasting disabled',
+  (LIB, '            if !summary.is_active_now {\n                runtime.submit_after(Timer::RemoveDown', '            if !summary.is_active_now && do_broadcast {\n                runtime.submit_after(Timer::RemoveDown'))
+M('c11_suspicion_timer_next_epoch', ['C11', 'C13'], ['C11-R2'], 'suspicion timer stamped with the next epoch',
+  (LIB, '                            incarnation: failed.incarnation(),\n                            token: self.timer_token,', '                            incarnation: failed.incarnation(),\n                            token: self.timer_token.wrapping_add(1),'))
+M('c11_suspicion_timer_zero_incarnation', ['C11'], ['C11-R2'], 'suspicion timer snapshots incarnation 0 instead of the record\'s',
+  (LIB, '                            incarnation: failed.incarnation(),\n                            token: self.timer_token,', '                            incarnation: Incarnation::default(),\n                            token: self.timer_token,'))
+M('c11_turnundead_unconditional', ['C11'], ['C11-R4'], 'TurnUndead sent even when notify_down_members is off',
+  (LIB, 'if declared_down && self.config.notify_down_members {', 'if declared_down {'))
+M('c11_remove_down_wrong_delay', ['C11'], ['C11-R4'], 'forget-timer scheduled after suspect_to_down_after',
+  (LIB, 'runtime.submit_after(Timer::RemoveDown(id.clone()), self.config.remove_down_after);', 'runtime.submit_after(Timer::RemoveDown(id.clone()), self.config.suspect_to_down_after);'))
+M('c11_gossip_on_failed_apply', ['C11', 'C15'], ['C11-R3', 'C11-R4'], 'updates are queued for gossip even when nothing was applied',
+  (LIB, '        if summary.apply_successful {\n', '        if summary.apply_successful || !summary.is_active_now {\n'))
